@@ -42,6 +42,22 @@ type htmlerT struct{ s string }
 func (h htmlerT) HTML() template.HTML { return template.HTML(h.s) }
 
 type embE struct{ X string }
+type c04lbl struct{ Name string }
+
+func (l *c04lbl) String() string { return "lbl:" + l.Name }
+
+type c04priv struct {
+	label   *c04lbl
+	updated *time.Time
+	count   *int
+	name    string
+	html    *htmlerT
+	Label   *c04lbl
+	iface   fmt.Stringer
+	list    []*c04lbl
+	nilp    *c04lbl
+}
+
 type c04self struct{}
 
 func (p c04self) Interface() interface{} { return p }
@@ -344,6 +360,26 @@ func init() {
 		// the repaired defects stay in the corpus
 		for _, t := range []string{`<%= vm[vnil] %>`, `<% vmi["b"] = "x" %>`, `<% vmi[1] = 1 %>`, `<% vxs[0] = vnil %>`, `<%= vxs[0 - 1] %>`, `<%= len(1) %>`, `<%= truncate("abc", {size: "x"}) %>`, `<% let g = fn(a, b) { return a } %><%= g(1) %>`, `<%= vt1.NilP.Hello("x") %>`, `<%= {let: 1} %>`} {
 			e.c04case("corpus", t, true, nil)
+		}
+		// unexported struct fields of every shape (pointers to types that print themselves included), on a
+		// value and on a pointer receiver: reading one is an error (or nothing), never a panic
+		{
+			lbl, n, tv := &c04lbl{"l"}, 3, time.Unix(0, 0).UTC()
+			rv := c04priv{label: lbl, updated: &tv, count: &n, name: "n", html: &htmlerT{}, Label: lbl, iface: lbl, list: []*c04lbl{lbl}}
+			extra := map[string]interface{}{"r": rv, "pr": &rv, "rs": []c04priv{rv}}
+			for _, recv := range []string{"r", "pr", "rs[0]"} {
+				for _, f := range []string{"label", "updated", "count", "name", "html", "Label", "iface", "list", "nilp"} {
+					for _, form := range []string{"<%= X %>", "<% let q = X %><%= q %>", "<%= if (X) { %>y<% } %>", "<%= X.Name %>", "<%= for (v) in [1] { %><%= X %><% } %>"} {
+						tm := strings.Replace(form, "X", recv+"."+f, 1)
+						o := runRenderExtra(RCase{Tmpl: tm}, extra)
+						e.rep.Evaluations++
+						e.Count("unexported-fields")
+						if o.Class == "PANIC" || o.Class == "HANG" {
+							e.Violate("eval-panic@"+siteOf(o.Msg), fmt.Sprintf("Render panicked on %q: %s", tm, o.Msg), map[string]interface{}{"tmpl": tm, "observed": o})
+						}
+					}
+				}
+			}
 		}
 		// a foreign hctx.Context (a struct embedding *plush.Context) handed to Exec: constructs that open a
 		// scope need the data of a *plush.Context - an error, never a failed type assertion
